@@ -292,9 +292,13 @@ class PlanJoinTablesQuery:
         query = copy.deepcopy(query_in)
 
         # replace sub selects, with identifiers with links to original selects
+        sub_select_names = []
+
         def replace_subselects(node, **args):
             if isinstance(node, Select) or isinstance(node, NativeQuery) or isinstance(node, ast.Data):
-                name = f't_{id(node)}'
+                # numbered per query (a memory address here made the plan of the same query differ from call to call)
+                name = f'__t_{len(sub_select_names)}'
+                sub_select_names.append(name)
                 node2 = Identifier(name, alias=node.alias)
 
                 # save in attribute
